@@ -23,7 +23,7 @@ import sys
 import time
 
 HERE = os.path.dirname(os.path.abspath(__file__))
-HARNESS_DIR = os.path.join(HERE, "harness")
+HARNESS_DIR = os.environ.get("VERIF_HARNESS", os.path.join(HERE, "harness"))
 REPO = os.environ.get("VERIF_REPO", "/repo")
 CRATE = os.path.join(REPO, "serde_avro_fast")
 TARGET = os.environ.get("VERIF_TARGET", os.path.join("/verif", ".target"))
